@@ -142,12 +142,12 @@ SHARED = {
     "C05": " The slot-map semantics that make 'vacated' mean 'dropped in place and invisible to the accessor' (C02 R2.3) are evaluated in this check.",
     "C04": " Added: completeness of the live-task enumeration used by the re-base (R4.3b).",
     "C06": " Added: exhaustive, vacancy-guarded release loops (R6.6), no path of a buffer struct's Drop impl avoids the release loop except on buffer emptiness or needs_drop::<element type>() == false (R6.7); shared: vacate<=>Ready (C02 R2.1/R2.3), waker allocation freed exactly once (C03 R3.1/R3.4).",
-    "C07": " Added: who-may-vacate (C02 R2.2) so that unwind guards or other code cannot vacate a slot without an output; direct-drain forms of poll are handled.",
-    "C09": " Guard semantics are decided by a finite-grid entailment on the closed form of the fill guard (pull ==> running < capacity; no pull ==> running(+parked) >= capacity), with the exact-shape rule as fallback; the assume-guarantee links (C02 R2.1/R2.4, C15 R15.3/R15.4) are evaluated in this check.",
-    "C10": " The assume-guarantee links (C02 R2.1/R2.4, C15 R15.3/R15.4) are evaluated in this check.",
+    "C07": " Added: the slot map's FromIterator builds a full map -- every element Occupied, counter = len(storage) -- so capacity() == number of inputs (R7.6); who-may-vacate (C02 R2.2) so that unwind guards or other code cannot vacate a slot without an output; direct-drain forms of poll are handled.",
+    "C09": " Added: the limit reaches the slot storage unchanged through every constructor on the way (R9.4, with C02 R2.7). Guard semantics are decided by a finite-grid entailment on the closed form of the fill guard (pull ==> running < capacity; no pull ==> running(+parked) >= capacity), with the exact-shape rule as fallback; the assume-guarantee links (C02 R2.1/R2.4, C15 R15.3/R15.4) are evaluated in this check.",
+    "C10": " Added: the upstream is given up (set(None)) only directly after it returned Ready(None); adapter constructors and the capacity chain (C09 R9.1/R9.4) are evaluated here because a clamped or zero capacity stalls the adapter. The assume-guarantee links (C02 R2.1/R2.4, C15 R15.3/R15.4) are evaluated in this check.",
     "C11": " Also evaluates the wake/poll handshake (C01), Occupied-only polling (C05 R5.1), slot-map all-or-none (C02 R2.3), and that the unbounded push inserts exactly once on every path.",
     "C12": " Added: every Waker::wake* call in the crate is on the caller's task waker (the crate never invokes a child slot waker itself).",
-    "C13": " The budget must admit at least one child poll; every loop cycle that polls a child passes the increment and the comparison.",
+    "C13": " The budget cell may count up or down, directly or through a &mut borrow of it (helper inlined); exhaustion must lead, on every feasible path, out of the loop through a self-wake to a Pending return. The budget must admit at least one child poll; every loop cycle that polls a child passes the increment and the comparison.",
     "C15": " Added: try-push forwarders have no side effects of their own (R15.2), every group of an unbounded collection has capacity >= 1 (R15.5).",
     "C16": " The guard is decided by finite-grid entailment (a pull is admitted only when running + parked < capacity) with the exact-shape rule as fallback; C15 R15.3 (len = running + parked) is evaluated in this check.",
     "C17": " Handles match, Option::and_then and map/unwrap_or forms of the bound computation; C15 R15.3 is evaluated in this check.",
